@@ -51,7 +51,10 @@ def _type_name(t) -> str:
 
 
 def _is_null(v) -> bool:
-    return pd.isnull(v)
+    res = pd.isnull(v)
+    if isinstance(res, (bool, np.bool_)):
+        return bool(res)
+    return False  # a list, array or frame is a value, not a null
 
 
 def is_data_frame(d) -> bool:
